@@ -103,7 +103,13 @@ func expectedURI(override, nodeID, connAddr string) (hostport string, refuse boo
 		if err != nil {
 			return "", true
 		}
-		if h := u.Hostname(); h != "" {
+		if h := u.Hostname(); u.User == nil && len(h) == 128 && isHex(h) {
+			// "enode://<id>" - an id without an address (what the agent-side parser calls the id-only form): it
+			// names an identity, not a host
+			if h != nodeID {
+				return "", true
+			}
+		} else if h != "" {
 			if ip := net.ParseIP(h); ip == nil || !ip.IsUnspecified() {
 				host = h
 			}
@@ -119,6 +125,15 @@ func expectedURI(override, nodeID, connAddr string) (hostport string, refuse boo
 		return "", true
 	}
 	return net.JoinHostPort(host, port), false
+}
+
+func isHex(x string) bool {
+	for _, c := range x {
+		if !(c >= '0' && c <= '9' || c >= 'a' && c <= 'f' || c >= 'A' && c <= 'F') {
+			return false
+		}
+	}
+	return x != ""
 }
 
 func isLowBalance(err error) bool {
@@ -445,6 +460,10 @@ func (d *Director) update(a *Actor, reported []string, block uint64, oldFormat b
 	op := fmt.Sprintf("#%d update(%s peers=%v)", d.n, a.Name, w.names(reported))
 	led := d.ledger()
 	balBefore := d.balances()
+	var seenBefore time.Time
+	if n, e := w.Inner.GetNode(store.NodeID(a.ID)); e == nil {
+		seenBefore = n.LastSeen
+	}
 	hostsBefore := w.nextSeq()
 	t0 := time.Now()
 	ctx, cancel := d.ctx()
@@ -479,6 +498,11 @@ func (d *Director) update(a *Actor, reported []string, block uint64, oldFormat b
 		// a failed keep-alive is all or nothing: no balance moved
 		if after := d.balances(); after != balBefore {
 			d.W.S.Violate("all_or_nothing", "a keep-alive that failed moved balances", "%s failed with %q but balances changed:\n%s", op, err, diffLines(balBefore, after))
+		}
+		// ... and the stretch of time it would have billed is still to be billed: the next accepted keep-alive
+		// must charge from the previous accepted one, not from the failed one
+		if n, e := w.Inner.GetNode(store.NodeID(a.ID)); e == nil && !isVerifyFailed(err) && !seenBefore.IsZero() && !a.IsHost && !n.LastSeen.Equal(seenBefore) {
+			d.W.S.Violate("all_or_nothing", "a keep-alive that failed consumed the time it did not bill", "%s failed with %q and moved no balance, but the client's check-in moved from %s to %s: the %s before it will never be charged", op, err, seenBefore.Format("15:04:05.000000"), n.LastSeen.Format("15:04:05.000000"), n.LastSeen.Sub(seenBefore))
 		}
 	}
 	if (err == nil || isLowBalance(err)) && d.on["C02F"] {
@@ -692,6 +716,9 @@ func (d *Director) instrCounts() map[*Conn]int {
 func (d *Director) checkDisconnects(a *Actor, active []store.NodeID, since int64, op string) {
 	for _, p := range active {
 		c := d.W.Reg[string(p)]
+		if c != nil && c.A.Policy == PolicyDeaf {
+			continue // it has stopped reading: the instruction cannot even be written to it
+		}
 		if c == nil || c.Closed {
 			continue
 		}
